@@ -143,7 +143,7 @@ class Intrinsics:
         hook = self.ex.external_contract(name)
         if hook is not None:
             return hook(P, args, kwargs)
-        if name.startswith('ast.') and name[4:5].isupper() and not args:
+        if name.startswith('ast.') and (name[4:5].isupper() or name[4:] in ('keyword', 'arg', 'arguments', 'comprehension')) and not args:
             # Python `ast` node constructor with keyword fields: an opaque free constructor
             from .strings import FreeCons
             return FreeCons(name, dict(kwargs))
@@ -1243,6 +1243,15 @@ class Intrinsics:
         if is_sym_real(x):
             return self.ex.frac_part(P, x, 'numerator')
         raise Unsupported(f'frac_num({x!r})')
+
+    # derived sequences (C04, pyvc/derivedseq.py)
+    def s_same_elem(self, P, a, i, b, j):
+        from . import derivedseq
+        return derivedseq.same_elem(P, a, i, b, j)
+
+    def s_elem_is(self, P, x, s, j):
+        from . import derivedseq
+        return derivedseq.elem_is(P, x, s, j)
 
     def s_cons_name(self, P, v):
         """speclib.cons_name: class name of a (Python ast) node"""
